@@ -65,7 +65,28 @@ def _nt_fields(repo: Repo, modname: str, name: str):
     return list(v)
 
 
+def launch_image_list(repo: Repo, run: Run) -> None:
+    """The images a launch trace announces reach insert_image in the order of its image list: that the list holds one
+    entry per nested image record, each decoded from its own record, in record order, is C20/R2 - a necessary condition of
+    "an address announced twice keeps its first identity"."""
+    from . import c20
+    probe = Run("C20", run.tier, run.repo_root)
+    try:
+        c20.check(repo, probe)
+    except AnalysisError:
+        pass
+    n = 0
+    for o in probe.obligations:
+        if o["rule"] == "R2" and "launch_executable" in o["scope"]:
+            n += 1
+            run.ob("R0", o["module"], o["scope"], f"launch image list (C20/R2): {o['construct']}", o["ok"],
+                   (o.get("what", "") + " - the callstack parser learns the images of a launch from this list, in this order") if not o["ok"] else "",
+                   nontrivial=False)
+    run.floor("R0", "image-list obligations taken over from C20", n, 2)
+
+
 def check(repo: Repo, run: Run) -> None:
+    launch_image_list(repo, run)
     interp = sym.Interp(repo)
     cp = repo.cls("callstacks_parser", "CallstacksParser")
     # ------------------------------------------------------------------ R1
